@@ -118,6 +118,7 @@ def showErr : Err → String
   | .dvDuplicatedField => "err typecheck DuplicatedField"
   | .dvValuesMissing => "err typecheck ValuesMissingForUdtFields"
   | .dvFieldDeserFailed => "err deser FieldDeserializationFailed"
+  | .dvNullUdt => "err deser ExpectedNonNull"
   | .drWrongColumnCount => "err typecheck WrongColumnCount"
   | .drColumnNameMismatch => "err typecheck ColumnNameMismatch"
   | .drColumnTypeCheckFailed => "err typecheck ColumnTypeCheckFailed"
@@ -150,8 +151,10 @@ def run (case _impl : String) : String :=
   | [head, cols, vals] =>
     match head with
     | op :: _name :: flavor :: snc :: forbid :: n :: fieldToks =>
+      -- `dv … ; … ; NULL`: the whole UDT value is null
+      let wholeNull := op == "dv" && vals == ["NULL"]
       match (if flavor == "bn" then some Flavor.byName else if flavor == "ord" then some Flavor.ordered else none),
-            bit snc, bit forbid, n.toNat?, cols.mapM parseCol, vals.mapM parseVal with
+            bit snc, bit forbid, n.toNat?, cols.mapM parseCol, (if wholeNull then some [] else vals.mapM parseVal) with
       | some flavor, some snc, some forbid, some n, some db, some vs =>
         match parseFields (fieldToks.length + 1) n fieldToks with
         | some (pfs, []) =>
@@ -174,7 +177,7 @@ def run (case _impl : String) : String :=
                 else showRes nested
               | _ => "bad-case"
           else if op == "dv" then
-            (if isFlat pfs then showRes (deserValue d db vs) else "bad-case")
+            (if isFlat pfs then showRes (deserValueOpt d db (if wholeNull then none else some vs)) else "bad-case")
           else if op == "dr" then
             (if isFlat pfs then showRes (deserRow d db vs) else "bad-case")
           else "bad-case"
